@@ -32,6 +32,8 @@ def exhaustive_specs(rng, tier):
 
 
 def run(res, replay=None):
+    # structural tie of the class Transition of phasegen/state_space.py: translate the CURRENT source and re-check proofs/GenTransitionEquiv.v
+    import translate_step; (res.proof is not None) and translate_step.run(res.proof, pid=res.pid, tie='transition')
     rng = random.Random(res.seed)
     res.rule = ('statespace stream: every sample split with n<=4 (thorough: 5) over <=3 demes, random model among '
                 'Kingman/Beta/Dirac, power-of-two sizes and dyadic migration rates in 1-2 epochs, both state spaces; two '
